@@ -4,7 +4,7 @@
    concrete witness, proved under the exact extra hypothesis. *)
 From Coq Require Import NArith ZArith List Bool Arith Lia.
 From Snap.Array Require Import ArrayDefs SyncModel SyncProofsDefs.
-From Snap.Scan Require Import ScanModel ScanBasics ScanSteps ScanSound ScanCopy ScanMap.
+From Snap.Scan Require Import ScanModel ScanBasics ScanSteps ScanInv ScanSound ScanCopy ScanMap.
 Import ListNotations.
 
 (* --- slot_at from membership, under a well formed map --------------------------------------------------------------- *)
@@ -200,4 +200,224 @@ Section Par.
 
   Lemma pinv_remove_missing d0 d : pinv d0 d -> pinv d0 (remove_missing clearpast d).
   Proof. intro I. apply (pinv_remove_missing_gen d0 sf_present (sd_files d) [] d I eq_refl); reflexivity. Qed.
+
+  (* --- what the delayed inserts put into the new blocks ------------------------------------------------------------ *)
+  Lemma find_deleted_in p h dl : find_deleted p dl = Some h -> In (p, h) dl.
+  Proof.
+    induction dl as [|[q k] t IH]; simpl; [discriminate|]. destruct (Nat.eqb q p) eqn:E.
+    - intro H; inversion H; subst. apply Nat.eqb_eq in E. subst. left; reflexivity.
+    - intro H. right. exact (IH H).
+  Qed.
+
+  Definition new_block_ok (del : list (nat * hval)) (nb : fblock) : Prop :=
+    fb_state nb <> SBlk /\
+    (fb_state nb = SChg -> h_unique (fb_hash nb) = true -> clearpast = true /\ In (fb_pos nb, fb_hash nb) del).
+
+  Lemma alloc_blocks_hash occ bl : forall ff del nb,
+    In nb (snd (alloc_blocks clearpast inf occ ff del bl)) -> new_block_ok del nb.
+  Proof.
+    induction bl as [|b t IH]; intros ff del nb H; [destruct H|].
+    rewrite alloc_blocks_cons in H. unfold alloc_block at 1 in H. cbv zeta in H.
+    set (pos := ffree (S (length occ)) occ ff) in *.
+    set (del1 := filter (fun ph : nat * hval => negb (Nat.eqb (fst ph) pos)) del) in *.
+    destruct (alloc_blocks clearpast inf occ (S pos) del1 t) as [[ff2 del2] rest] eqn:E2. simpl in H.
+    destruct H as [H|H].
+    - subst nb. unfold new_block_ok.
+      destruct (negb (bstate_eqb (fb_state b) SChg) && negb (rehash_at inf pos)); simpl.
+      + split; [discriminate | intro; discriminate].
+      + split; [discriminate|]. intros _ Hu. destruct (find_deleted pos del) as [h|] eqn:Ef; [|simpl in Hu; discriminate].
+        destruct clearpast; [|simpl in Hu; discriminate]. split; [reflexivity | apply find_deleted_in; exact Ef].
+    - destruct (IH (S pos) del1 nb) as [A B]; [rewrite E2; exact H|]. split; [exact A|].
+      intros Hs Hu. destruct (B Hs Hu) as [C D]. split; [exact C|]. unfold del1 in D. apply filter_In in D. tauto.
+  Qed.
+
+  Lemma alloc_files_hash occ fl : forall ff del f' nb,
+    In f' (snd (alloc_files clearpast inf occ ff del fl)) -> In nb (cf_blocks f') -> new_block_ok del nb.
+  Proof.
+    induction fl as [|f t IH]; intros ff del f' nb Hf Hb; [destruct Hf|].
+    rewrite alloc_files_cons in Hf.
+    pose proof (alloc_blocks_spec clearpast inf occ (cf_blocks f) ff del) as B.
+    pose proof (alloc_blocks_hash occ (cf_blocks f) ff del) as Hh.
+    destruct (alloc_blocks clearpast inf occ ff del (cf_blocks f)) as [[ff1 del1] bl] eqn:E1.
+    destruct B as [_ [_ [_ [_ Hdel]]]].
+    destruct (alloc_files clearpast inf occ ff1 del1 t) as [del2 rest] eqn:E2. simpl in Hf.
+    destruct Hf as [Hf|Hf].
+    - subst f'. simpl in Hb. apply Hh. exact Hb.
+    - destruct (IH ff1 del1 f' nb) as [A C]; [rewrite E2; exact Hf | exact Hb|]. split; [exact A|].
+      intros Hs Hu. destruct (C Hs Hu) as [C1 C2]. split; [exact C1|]. rewrite Hdel in C2. apply drop_at_in in C2. tauto.
+  Qed.
+
+  (* --- the slots of a disk after the scan, against the slots before ---------------------------------------------------- *)
+  Definition slot_rel (s0 s' : slot) : Prop :=
+    match s' with
+    | SEmpty => s0 = SEmpty
+    | SDeleted _ => True
+    | SFile f' i b' =>
+        (exists f0, s0 = SFile f0 i b' /\ cf_size f0 = cf_size f') \/
+        (fb_state b' <> SBlk /\
+         (fb_state b' = SChg -> h_unique (fb_hash b') = true ->
+          clearpast = true /\
+          (s0 = SDeleted (fb_hash b') \/ exists f0 i0 b0, s0 = SFile f0 i0 b0 /\ fb_hash b' = past_of true b0)))
+    end.
+
+  Lemma finish_slots d0 d pos :
+    MapOK_disk d0 -> smap_ok d -> pinv d0 d ->
+    slot_rel (slot_at d0 pos) (slot_at (fst (finish_disk clearpast inf d)) pos).
+  Proof.
+    intros M0 Hs Hp. pose proof (finish_map clearpast inf d Hs) as M'.
+    apply (remove_missing_map clearpast) in Hs. apply pinv_remove_missing in Hp.
+    remember (fst (finish_disk clearpast inf d)) as d' eqn:Ed'.
+    unfold finish_disk in Ed'.
+    set (d1 := remove_missing clearpast d) in *.
+    set (kept := map sf_f (sd_files d1)) in *.
+    set (occ := flat_map (fun f => map fb_pos (cf_blocks f)) kept) in *.
+    pose proof (alloc_files_spec clearpast inf occ (map fst (sort_ins (sd_ins d1))) 0 (sd_deleted d1)) as A.
+    pose proof (alloc_files_hash occ (map fst (sort_ins (sd_ins d1))) 0 (sd_deleted d1)) as Hh.
+    destruct (alloc_files clearpast inf occ 0 (sd_deleted d1) (map fst (sort_ins (sd_ins d1)))) as [del added] eqn:Ea.
+    destruct A as [_ [_ [_ Hdel]]]. cbn [fst snd] in *.
+    destruct Hp as [P1 P2 P3 P4].
+    assert (Ek : map sposs (sd_files d1) = map file_poss kept) by (unfold kept; rewrite map_map; reflexivity).
+    assert (Ef' : cd_files d' = kept ++ added) by (subst d'; reflexivity).
+    assert (Ed2 : cd_deleted d' = del) by (subst d'; reflexivity).
+    unfold slot_rel. destruct (slot_at d' pos) as [|f' i b'|h] eqn:Es; [| |exact I].
+    - (* empty now: empty before *)
+      destruct (slot_at_empty_inv d' pos Es) as [N1 N2]. rewrite Ef' in N1. rewrite Ed2 in N2. rewrite map_app, concat_app in N1.
+      assert (Hno : forall h, ~ In (pos, h) (sd_deleted d1)).
+      { intros h Hc. apply N2. subst del. change pos with (fst (pos, h)). apply in_map. apply drop_at_in. split; [exact Hc|].
+        simpl. intro Hc2. apply N1. apply in_app_iff. right. exact Hc2. }
+      unfold slot_at. destruct (find_in_files pos (cd_files d0)) as [[[f0 i0] b0]|] eqn:E0.
+      + exfalso. destruct (find_in_files_pos _ _ _ _ _ E0) as [Ep [Hf0 Hb0]]. subst pos.
+        destruct (P3 f0 b0 Hf0 Hb0) as [H|H].
+        * apply N1. apply in_app_iff. left. rewrite <- Ek. exact H.
+        * apply in_map_iff in H. destruct H as [[p h] [E Hph]]. simpl in E. subst p. exact (Hno h Hph).
+      + destruct (find_deleted pos (cd_deleted d0)) as [h|] eqn:E1; [|reflexivity].
+        exfalso. apply find_deleted_in in E1. exact (Hno h (P4 _ E1)).
+    - destruct (slot_at_file_inv d' pos f' i b' Es) as [Hf [Hn Hpos]]. rewrite Ef' in Hf. apply in_app_iff in Hf. destruct Hf as [Hf|Hf].
+      + (* a kept file: the same block of a file of the old content *)
+        left. unfold kept in Hf. apply in_map_iff in Hf. destruct Hf as [sf [E Hsf]]. subst f'.
+        destruct (P1 sf Hsf) as [f0 [Hf0 [B S]]]. exists f0. split; [|symmetry; exact S].
+        subst pos. apply slot_at_of_in; [exact M0 | exact Hf0 | rewrite <- B; exact Hn].
+      + (* a file allocated by this scan *)
+        right. destruct (Hh f' b' Hf (nth_error_In _ _ Hn)) as [NB Hu]. split; [exact NB|].
+        intros Hc Hq. destruct (Hu Hc Hq) as [C D]. split; [exact C|]. rewrite Hpos in D.
+        destruct (P2 _ D) as [Ho | [f0 [b0 [Hf0 [Hb0 [Ep Eh]]]]]].
+        * left. apply slot_at_of_deleted; assumption.
+        * right. simpl in Ep, Eh. apply In_nth_error in Hb0. destruct Hb0 as [i0 Hi0]. exists f0, i0, b0.
+          split; [replace pos with (fb_pos b0) by congruence; apply slot_at_of_in; assumption | rewrite Eh, C; reflexivity].
+  Qed.
+
+  (* --- disk by disk: the content after the scan against the content before ----------------------------------------------- *)
+  Lemma scan_entry_pres_ix (Q : nat -> sdisk -> Prop) usable k (w w' : world) e :
+    (forall d d', fstep basef bs clearpast nocopy inf usable e w k d d' -> Q k d -> Q k d') ->
+    (forall d name to hard d', scan_link d name to hard = Some d' -> Q k d -> Q k d') ->
+    (forall d name d', scan_emptydir d name = Some d' -> Q k d -> Q k d') ->
+    scan_entry basef bs clearpast nocopy inf usable k w e = Some w' ->
+    (forall j d, nth j w None = Some d -> Q j d) -> forall j d, nth j w' None = Some d -> Q j d.
+  Proof.
+    intros HF HL HD H I j d Hd. unfold scan_entry in H. destruct (nth k w None) as [dk|] eqn:Ek; [|discriminate].
+    assert (Hlt : k < length w) by (eapply nth_Some_lt; eauto).
+    assert (G : forall d', Q k d' -> w' = set_disk k d' w -> Q j d).
+    { intros d' Qd' E. subst w'. destruct (Nat.eq_dec j k) as [->|Hn].
+      - rewrite nth_set_disk_same in Hd by exact Hlt. inversion Hd; subst. exact Qd'.
+      - rewrite nth_set_disk_other in Hd by exact Hn. eapply I; eauto. }
+    destruct (le_kind e).
+    - apply scan_file_fstep in H. destruct H as [d' [E S]]. apply (G d'); [|exact E]. eapply HF; eauto.
+    - destruct (scan_link dk (le_name e) (le_to e) false) as [d'|] eqn:El; [|discriminate]. inversion H; subst w'.
+      apply (G d'); [|reflexivity]. eapply HL; eauto.
+    - destruct (scan_emptydir dk (le_name e)) as [d'|] eqn:El; [|discriminate]. inversion H; subst w'.
+      apply (G d'); [|reflexivity]. eapply HD; eauto.
+  Qed.
+
+  Lemma phase1_pres_ix (Q : nat -> sdisk -> Prop) usable listing :
+    (forall u e w k d d', fstep basef bs clearpast nocopy inf u e w k d d' -> Q k d -> Q k d') ->
+    (forall k d name to hard d', scan_link d name to hard = Some d' -> Q k d -> Q k d') ->
+    (forall k d name d', scan_emptydir d name = Some d' -> Q k d -> Q k d') ->
+    forall (w w' : world), phase1 basef bs clearpast nocopy inf usable listing w = Some w' ->
+    (forall j d, nth j w None = Some d -> Q j d) -> forall j d, nth j w' None = Some d -> Q j d.
+  Proof.
+    intros HF HL HD w w' H. unfold phase1 in H. revert H. generalize (seq 0 (length w)) as ks. intro ks. revert w.
+    induction ks as [|k t IH]; simpl; intros w H I.
+    - inversion H; subst. exact I.
+    - destruct (fold_opt (scan_entry basef bs clearpast nocopy inf (nth k usable false) k) (nth k listing []) w) as [w1|] eqn:E; [|discriminate].
+      apply (IH w1 H). clear IH H. revert w w1 E I. generalize (nth k listing []) as es.
+      induction es as [|e es IHe]; simpl; intros w w1 E I.
+      + inversion E; subst. exact I.
+      + destruct (scan_entry basef bs clearpast nocopy inf (nth k usable false) k w e) as [w2|] eqn:E2; [|discriminate].
+        apply (IHe w2 w1 E). eapply scan_entry_pres_ix; eauto.
+  Qed.
+
+  Lemma phase1_none usable listing : forall (w w' : world),
+    phase1 basef bs clearpast nocopy inf usable listing w = Some w' ->
+    length w' = length w /\ forall j, nth j w None = None -> nth j w' None = None.
+  Proof.
+    intros w w' H. unfold phase1 in H. revert H. generalize (seq 0 (length w)) as ks. intro ks. revert w.
+    induction ks as [|k t IH]; simpl; intros w H.
+    - inversion H; subst. auto.
+    - destruct (fold_opt (scan_entry basef bs clearpast nocopy inf (nth k usable false) k) (nth k listing []) w) as [w1|] eqn:E; [|discriminate].
+      destruct (IH w1 H) as [L1 N1]. clear IH H.
+      assert (G : length w1 = length w /\ forall j, nth j w None = None -> nth j w1 None = None).
+      { clear L1 N1. revert w w1 E. generalize (nth k listing []) as es. induction es as [|e es IHe]; simpl; intros w w1 E.
+        - inversion E; subst. auto.
+        - destruct (scan_entry basef bs clearpast nocopy inf (nth k usable false) k w e) as [w2|] eqn:E2; [|discriminate].
+          destruct (IHe w2 w1 E) as [L2 N2].
+          assert (Hk : exists dk, nth k w None = Some dk) by (unfold scan_entry in E2; destruct (nth k w None); [eauto | discriminate]).
+          destruct (scan_entry_shape _ _ _ _ _ _ _ _ _ _ E2) as [d' E3]. subst w2. rewrite set_disk_length in L2.
+          split; [exact L2|]. intros j Hj. apply N2. destruct Hk as [dk Hk].
+          rewrite nth_set_disk_other; [exact Hj | intro; subst; congruence]. }
+      destruct G as [L2 N2]. split; [congruence | intros j Hj; apply N1; apply N2; exact Hj].
+  Qed.
+
+  Lemma scan_disks_rel usable c listing o :
+    MapOK c -> scan basef bs clearpast nocopy inf usable c listing = Some o ->
+    length (c_disks (sc_content o)) = length (c_disks c) /\
+    forall j, match nth j (c_disks c) None with
+              | Some d0 => exists d, nth j (c_disks (sc_content o)) None = Some (fst (finish_disk clearpast inf d)) /\
+                                     MapOK_disk d0 /\ smap_ok d /\ pinv d0 d
+              | None => nth j (c_disks (sc_content o)) None = None
+              end.
+  Proof.
+    intros M H. unfold scan in H.
+    set (w0 := map (fun kd : nat * option cdisk => match snd kd with Some d => Some (prepare (nth (fst kd) usable false) d) | None => None end)
+                   (combine (seq 0 (length (c_disks c))) (c_disks c))) in *.
+    destruct (phase1 basef bs clearpast nocopy inf usable listing w0) as [w|] eqn:E; [|discriminate].
+    inversion H; subst o; clear H. simpl.
+    assert (Hlen : length w0 = length (c_disks c)) by (unfold w0; rewrite map_length, combine_length, seq_length; lia).
+    destruct (phase1_none usable listing w0 w E) as [L1 N1].
+    assert (Hw0 : forall j, j < length (c_disks c) ->
+                  nth j w0 None = match nth j (c_disks c) None with Some d => Some (prepare (nth j usable false) d) | None => None end).
+    { intros j Hj. unfold w0. rewrite (nth_map_combine_seq0 _ _ None None) by exact Hj. reflexivity. }
+    set (Q := fun (j : nat) (d : sdisk) => match nth j (c_disks c) None with Some d0 => smap_ok d /\ pinv d0 d | None => False end).
+    assert (I0 : forall j d, nth j w0 None = Some d -> Q j d).
+    { intros j d Hj. assert (Hlt : j < length (c_disks c)) by (rewrite <- Hlen; eapply nth_Some_lt; eauto).
+      rewrite (Hw0 j Hlt) in Hj. unfold Q. destruct (nth j (c_disks c) None) as [d0|] eqn:E0; [|discriminate].
+      inversion Hj; subst d. split; [apply prepare_map; apply M; rewrite <- E0; apply nth_In; exact Hlt | apply pinv_init]. }
+    assert (I1 : forall j d, nth j w None = Some d -> Q j d).
+    { eapply (phase1_pres_ix Q); [ | | | exact E | exact I0]; unfold Q.
+      - intros u e w1 k d1 d2 S. destruct (nth k (c_disks c) None); [|tauto]. intros [A B].
+        split; [eapply smap_fstep; eauto | eapply pinv_fstep; eauto].
+      - intros k d1 name to hard d2 Hl. destruct (nth k (c_disks c) None); [|tauto]. intros [A B].
+        apply scan_link_spec in Hl. destruct Hl as [F1 [_ [F3 _]]]. split.
+        + unfold smap_ok. rewrite F1, F3. exact A.
+        + apply (pinv_same_blocks _ d1); [exact B | exact F3 | rewrite F1; reflexivity].
+      - intros k d1 name d2 Hl. destruct (nth k (c_disks c) None); [|tauto]. intros [A B].
+        apply scan_emptydir_spec in Hl. destruct Hl as [F1 [_ [F3 _]]]. split.
+        + unfold smap_ok. rewrite F1, F3. exact A.
+        + apply (pinv_same_blocks _ d1); [exact B | exact F3 | rewrite F1; reflexivity]. }
+    split; [rewrite !map_length; congruence|].
+    intro j. rewrite (nth_map_opt fst). rewrite (nth_map_opt (finish_disk clearpast inf)).
+    destruct (nth j (c_disks c) None) as [d0|] eqn:E0.
+    - assert (Hlt : j < length (c_disks c)) by (eapply nth_Some_lt; eauto).
+      destruct (nth j w None) as [d|] eqn:Ew.
+      + exists d. split; [reflexivity|]. pose proof (I1 j d Ew) as HQ. unfold Q in HQ. rewrite E0 in HQ.
+        split; [apply M; rewrite <- E0; apply nth_In; exact Hlt | exact HQ].
+      + (* a disk cannot disappear *)
+        exfalso. assert (Hs : nth j w0 None = Some (prepare (nth j usable false) d0)) by (rewrite (Hw0 j Hlt), E0; reflexivity).
+        clear - E Hs Ew. unfold phase1 in E.
+        destruct (phase1_gen basef bs clearpast nocopy inf (fun k => nth k usable false) (fun k => nth k listing []) (seq 0 (length w0)) w0 w (seq_NoDup _ _) E) as [_ [_ G]].
+        destruct (G j) with (d := prepare (nth j usable false) d0) (d0 := d0) as [d' [A _]];
+          [apply in_seq; split; [lia | simpl; eapply nth_Some_lt; eauto] | exact Hs | apply dinv_init | congruence].
+    - destruct (Nat.lt_ge_cases j (length (c_disks c))) as [Hlt|Hge].
+      + rewrite N1; [reflexivity|]. rewrite (Hw0 j Hlt), E0. reflexivity.
+      + rewrite nth_overflow by lia. reflexivity.
+  Qed.
 End Par.
